@@ -437,6 +437,42 @@ func VerifAllocStep(layout, nsvc, op, lite int) {
 		vhSymFlags(specs)
 		pools = vhPools(specs)
 		a.SetPools(pools)
+		// C03: an assignment whose addresses all lie in one pool of the new configuration survives the
+		// change untouched (addresses, ports, sharing and backend keys), under whatever name the pool has now
+		for _, s := range pre {
+			if !s.held {
+				continue
+			}
+			survives := false
+			for _, sp := range specs {
+				all := true
+				for _, ip := range s.ips {
+					all = vr.And(all, vhInSpec(sp, ip))
+				}
+				survives = vr.Or(survives, all)
+			}
+			al := a.allocated[s.name]
+			if survives {
+				vr.Assert(al != nil, "a pool change dropped an assignment whose addresses are still inside a pool")
+				if al == nil {
+					continue
+				}
+				same := vr.And(len(al.ips) == len(s.ips), len(al.ports) == len(s.ports))
+				if same {
+					for i := range s.ips {
+						same = vr.And(same, vhIPEq(al.ips[i], s.ips[i]))
+					}
+					for i := range s.ports {
+						same = vr.And(same, al.ports[i] == s.ports[i])
+					}
+				}
+				same = vr.And(same, vr.And(al.sharing == s.sharing, al.backend == s.backend))
+				vr.Assert(same, "a pool change altered a surviving assignment (addresses, ports or sharing/backend key)")
+				vr.Reach("assignment survived a pool change")
+			} else {
+				vr.Assert(al == nil, "a pool change kept an assignment whose addresses are outside every pool")
+			}
+		}
 	}
 	failed := err != nil
 	vhReadBack(a, svcs)
